@@ -6,6 +6,8 @@ import (
 	"math/rand/v2"
 	"strings"
 	"sync"
+	"sync/atomic"
+	"time"
 
 	am "github.com/pancsta/asyncmachine-go/pkg/machine"
 
@@ -22,7 +24,9 @@ func (eng) Level() string    { return "exploration" }
 func (eng) Rule() string {
 	return "cases: PRNG schema of 2..6 states (Auto, Multi, relations), 1-3 recording tracers bound through Opts.Tracers, 0-2 " +
 		"handler bindings that veto and issue follow-up mutations (queued) and checks, 1-8 goroutines each issuing 5-40 ops from " +
-		"{add,remove,set,toggle,adderr,canadd,canremove}; yields at the queue schedule points. After quiescence the event log of " +
+		"{add,remove,set,toggle,adderr,canadd,canremove}; yields at the queue schedule points; in a third of the cases 1-2 more tracers " +
+		"bound ahead of the recording ones leave mid-run (detach themselves from inside a callback, or are detached by another goroutine " +
+		"while their callback lingers). After quiescence the event log of " +
 		"every tracer is judged: one Init->Start->(Finals)->End per transition, not interleaved, chain of times, time-after = " +
 		"Machine.Time sampled inside TransitionEnd, tracers agree, queued mutations announced. Evaluation = one transition of " +
 		"one tracer; distinct non-trivial = distinct (case, transition index) whose transition was queued behind another, auto, " +
@@ -52,8 +56,37 @@ func (eng) Run(c core.CaseDesc, tier string) *core.CaseResult {
 		PRequire: r.Float64() * 0.2, PAdd: r.Float64() * 0.3, PRemove: r.Float64() * 0.3,
 		PAfter: r.Float64() * 0.15, PAuto: r.Float64() * 0.3, PMulti: r.Float64() * 0.3})
 	nTr := 1 + r.IntN(3)
-	mc, trs := seq.New(spec, seq.MachOpts{Tracers: nTr})
+	// in a third of the cases other tracers, bound ahead of the recording ones,
+	// leave mid-run: they detach themselves from inside one of their callbacks
+	// or are detached by another goroutine while their (slow) callbacks run.
+	// The recording tracers stay and must not miss anything.
+	var leavers []*leaver
+	if r.IntN(3) == 0 {
+		for k := 0; k < 1+r.IntN(2); k++ {
+			leavers = append(leavers, &leaver{TracerNoOp: &am.TracerNoOp{}, id: fmt.Sprintf("leaver%d", k),
+				at: int32(1 + r.IntN(25)), phase: []string{"end", "init", "start", "finals"}[r.IntN(4)], self: r.IntN(2) == 0})
+		}
+	}
+	var pre []am.Tracer
+	for _, l := range leavers {
+		pre = append(pre, l)
+	}
+	mc, trs := seq.New(spec, seq.MachOpts{Tracers: nTr, Pre: pre})
 	m := mc.M
+	for _, l := range leavers {
+		if !l.self {
+			ll := l
+			ll.reached = make(chan struct{})
+			go func() {
+				select {
+				case <-ll.reached:
+					_ = m.DetachTracer(ll.id)
+					ll.gone.Store(true)
+				case <-time.After(20 * time.Second):
+				}
+			}()
+		}
+	}
 	nb := r.IntN(3)
 	var rmx sync.Mutex
 	hr := rand.New(rand.NewPCG(c.Seed, 99))
@@ -120,6 +153,16 @@ func (eng) Run(c core.CaseDesc, tier string) *core.CaseResult {
 	}
 	final := m.Time(nil)
 	ctx := map[string]any{"schema": spec.String(), "tracers": nTr, "bindings": nb, "goroutines": nG}
+	if len(leavers) > 0 {
+		var ls []string
+		for _, l := range leavers {
+			ls = append(ls, fmt.Sprintf("%s leaves in its %d. %s callback (self=%v, left=%v)", l.id, l.at, l.phase, l.self, l.gone.Load()))
+			if l.gone.Load() {
+				res.Count("tracers_detached_mid_run", 1)
+			}
+		}
+		ctx["leaving_tracers_bound_first"] = ls
+	}
 
 	var ref []string
 	for ti, tr := range trs {
@@ -225,5 +268,45 @@ func (eng) Run(c core.CaseDesc, tier string) *core.CaseResult {
 	}
 	return res
 }
+
+// leaver is a tracer that leaves mid-run. self: it detaches itself (from a
+// goroutine, as pkg/telemetry does after send errors) inside its at-th
+// callback of the chosen phase and lingers there for a moment; otherwise that
+// callback wakes an outside goroutine that detaches it, and lingers.
+type leaver struct {
+	*am.TracerNoOp
+	id      string
+	at      int32
+	phase   string
+	self    bool
+	n       atomic.Int32
+	reached chan struct{}
+	gone    atomic.Bool
+}
+
+func (l *leaver) TracerId() string { return l.id }
+
+func (l *leaver) cb(phase string, tx *am.Transition) {
+	if phase != l.phase || l.n.Add(1) != l.at {
+		return
+	}
+	done := make(chan struct{})
+	if l.self {
+		go func() { _ = tx.Machine.DetachTracer(l.id); l.gone.Store(true); close(done) }()
+	} else {
+		close(l.reached)
+	}
+	// linger (not a verdict: only widens the window in which the detach lands
+	// while this round of callbacks is still in flight)
+	select {
+	case <-done:
+	case <-time.After(2 * time.Millisecond):
+	}
+}
+
+func (l *leaver) TransitionInit(tx *am.Transition)   { l.cb("init", tx) }
+func (l *leaver) TransitionStart(tx *am.Transition)  { l.cb("start", tx) }
+func (l *leaver) TransitionFinals(tx *am.Transition) { l.cb("finals", tx) }
+func (l *leaver) TransitionEnd(tx *am.Transition)    { l.cb("end", tx) }
 
 func main() { core.Main(eng{}) }
